@@ -116,8 +116,8 @@ struct pair {
 
     constexpr auto operator=(pair&& p) noexcept
         -> pair& requires((is_move_assignable_v<first_type> and is_move_assignable_v<second_type>)) {
-            first  = etl::move(p.first);
-            second = etl::move(p.second);
+            first  = etl::forward<first_type>(p.first);
+            second = etl::forward<second_type>(p.second);
             return *this;
         }
 
